@@ -83,6 +83,7 @@ type wState struct {
 	first              int
 	later              string
 	touched            bool // an Add*/AddInput/AddBranch call was made after the first Compile
+	touchedN           int
 	depth              int
 }
 
@@ -281,17 +282,21 @@ func (m *wModel) Step(c *Call) (Model, Expect, bool) {
 	switch s.status {
 	case stDead:
 		// see cModel.Step: the model keeps following calls that have no error result
+		nv := 0
 		if !c.IsCompile() {
 			m.addTo(n, c)
+		} else {
+			_, _, nv = m.compileRules(c.Opt) // what this Compile would find wrong by itself (several => the text may vary)
 		}
-		return n, Expect{HasErr: hasErr, V: vReject, From: stDead, DeadPos: s.deadPos, DeadCompile: true, DeadRules: s.deadRules,
+		return n, Expect{HasErr: hasErr, V: vReject, NViol: nv, From: stDead, DeadPos: s.deadPos, DeadCompile: true, DeadRules: s.deadRules,
 			DeadOp: m.b.calls[s.deadBy].Op, DeadUnl: s.deadUnl}, true
 	case stCompiled:
 		if c.IsCompile() {
 			n.s.later += fmt.Sprintf(",%d", c.Idx)
-			return n, Expect{HasErr: true, V: vEither, From: stCompiled, SameAsFirst: s.later == "" && !s.touched}, true
+			return n, Expect{HasErr: true, V: vEither, NViol: s.touchedN, From: stCompiled, SameAsFirst: s.later == "" && !s.touched}, true
 		}
 		n.s.touched = true
+		n.s.touchedN++
 		return n, Expect{HasErr: false, From: stCompiled}, true
 	}
 	if !c.IsCompile() {
